@@ -114,6 +114,14 @@ def rule_a(ctx, cr):
     ctx.touch(ds)
     gets = [c for c in ds.calls_matching(r"HashMap::<K, V, S, A>::get$")
             if ds.describe(c.args[0]) == "arg:var_map"]
+    arrs = [b for b, i, st in ds.aggregates("lang::ast::Variable", "Array")]
+    ctx.check(bool(arrs) and not any(ds.can_reach(g.bb, b) for g in gets for b in arrs), "C10.a",
+              "descend/substitutes-scalars-only", ds.span,
+              "NAME( .. ) inside a function body stays the program's array or function NAME: the "
+              "parameter map is consulted only on the path of a plain identifier",
+              "descend() looks an identifier up in the parameter map before it knows whether a "
+              "`(` follows: an array that shares its name with a parameter is replaced by the "
+              "parameter's private name inside the body and no longer reads the program's array")
     ctx.check(len(gets) == 1, "C10.a", "descend/consults-map", ds.span,
               "a plain identifier is looked up in the parameter map")
     bad = []
